@@ -43,7 +43,7 @@ Quantifier: {qt}
 
 Code anchors (files): {', '.join(files)}
 
-ADDITIONAL GUIDANCE FOR THIS RUN (the hardest target so far): the property is already guarded by a bounded-exhaustive checker. It enumerates ALL sizes/versions/table rows named in the property and all short inputs over class-representative alphabets with fresh objects per case, AND ALSO: reuse of one reader/writer/encoder/decoder object across call sequences; results retained across later calls; argument slices passed with spare capacity, as windows of larger arrays, aliased to each other, or rewritten in place by the caller between calls; sub-images with strides and non-zero origins; long inputs (thousands of characters) with late special characters; every single byte value as content; every argument value of positional operations (every left/width, start/end, crop rectangle); very large scales and very tall / wide images (every height and width up to ~1000); off-centre and non-square canvases; mirrored and rotated poses combined with hints; hint VALUES in every documented spelling (ints as decimal strings incl. zero-padded and signed, flag hints mapped to true / nil / struct{{}}{{}}, charset names incl. aliases and names the IANA index knows but Go does not implement, encoding values); every Unicode code point as content; decoder/reader objects reused after calls that FAILED (every failure exit); rows and matrices whose padding bits beyond the size are dirty; algebraically special payloads (Reed-Solomon parity all zero or starting with zeros, data blocks that are multiples of the generator); size ladders around powers of two (255/256/257, 512, 1024) for every container and view operation; twisted perspective transforms whose interior sample points leave the image; valid symbols of symbologies the library cannot write itself (Aztec, RSS-14, UPC/EAN add-ons) from independent reference encoders over all group/table boundaries; the image view of bit matrices through every standard-library consumer; self-consistency of chosen symbol sizes with the writer's own codeword count; contents that maximise characters per codeword or bytes per character (macro envelopes with digit bodies filling the largest symbols, single-byte charset characters that are three bytes in UTF-8 at the capacity of every large version, runs of two-character Aztec punctuation codes); grey (not only black/white) pixel rows with every centre value against the exact binarisation model; coordinates in tiny and huge units (1e-9 .. 1e6) with relative error bounds; extreme numeric arguments (0, 1e-300, 1e19, MaxFloat64, +Inf); error patterns and data crafted by linear algebra (errors that zero part of the syndromes, data that drives the encoder's division register into special states); every ordered list value of list-valued hints; hint combinations (callback + row-level hints) on upside-down / sideways / mirrored retry paths; reader histories that include hinted reads and every failure exit; ragged and over-long nested slices; call histories through REFUSED requests for every stateless-looking function; hint values of every well-typed kind on ECI-designated as well as undesignated symbols (encodings whose decoder fails, nil, numbers); several writer hints given TOGETHER; the automatic choices of the encoders (mask, version, mode, symbol size) compared with the standard's rule and with what the returned object reports; symbols of more than 103 / 206 characters for modulo-103 checks; canvases of more than 2^31 pixels; arguments whose unused padding bits are dirty, also as seen one operation later; state that flows through the CALLER's own objects (ONE hints map handed to several writers / readers / reads in turn, ONE BinaryBitmap read several times by several readers, ONE multi-format reader shown different symbologies in turn, ONE binariser asked again after a refusal; foreign symbols as steps of such histories); encoder / decoder objects reused over parity counts on both sides of 256 and 512; Code 128 symbols of up to 13600 characters; every mask-evaluation feature compared with the standard at every 5 % boundary of every version; data blocks that are equal or differ only by CRC-32 / Adler-32 / sum / xor / order collisions; every malformed ECI designator prefix; trailer or header fragments of the macro envelope in ordinary text behind runs of every encodation; slanted and 45-degree-rotated grids at every 1/8-pixel translation across every image edge; pixel runs aligned to 32/64-bit storage words; every byte value at every position of fixed-length numeric contents; string arguments holding multi-byte, multi-rune and empty strings; symbols touching two opposite image edges; several symbols on one canvas incl. structured-append parts; every well-typed value of callback hints (typed nil, untyped nil, function literal). Any breakage that needs two goroutines is ALSO already covered (a schedule explorer and a race-detector pass run every pair of library operations concurrently) and is NOT wanted: the violation must show in a sequential program. Aim for a change all of that could still plausibly MISS while the property is genuinely violated: e.g. a rare combination of THREE conditions, a dependence on a specific numeric value deep inside a table that only one symbol size and one content class reaches, an arithmetic overflow or rounding that needs particular magnitudes, an interaction between two different symbologies or features through legitimately shared read-only state, an error path taken only after a particular earlier failure, or a hint value in an unusual but documented type.
+ADDITIONAL GUIDANCE FOR THIS RUN (the hardest target so far): the property is already guarded by a bounded-exhaustive checker. It enumerates ALL sizes/versions/table rows named in the property and all short inputs over class-representative alphabets with fresh objects per case, AND ALSO: reuse of one reader/writer/encoder/decoder object across call sequences; results retained across later calls; argument slices passed with spare capacity, as windows of larger arrays, aliased to each other, or rewritten in place by the caller between calls; sub-images with strides and non-zero origins; long inputs (thousands of characters) with late special characters; every single byte value as content; every argument value of positional operations (every left/width, start/end, crop rectangle); very large scales and very tall / wide images (every height and width up to ~1000); off-centre and non-square canvases; mirrored and rotated poses combined with hints; hint VALUES in every documented spelling (ints as decimal strings incl. zero-padded and signed, flag hints mapped to true / nil / struct{{}}{{}}, charset names incl. aliases and names the IANA index knows but Go does not implement, encoding values); every Unicode code point as content; decoder/reader objects reused after calls that FAILED (every failure exit); rows and matrices whose padding bits beyond the size are dirty; algebraically special payloads (Reed-Solomon parity all zero or starting with zeros, data blocks that are multiples of the generator); size ladders around powers of two (255/256/257, 512, 1024) for every container and view operation; twisted perspective transforms whose interior sample points leave the image; valid symbols of symbologies the library cannot write itself (Aztec, RSS-14, UPC/EAN add-ons) from independent reference encoders over all group/table boundaries; the image view of bit matrices through every standard-library consumer; self-consistency of chosen symbol sizes with the writer's own codeword count; contents that maximise characters per codeword or bytes per character (macro envelopes with digit bodies filling the largest symbols, single-byte charset characters that are three bytes in UTF-8 at the capacity of every large version, runs of two-character Aztec punctuation codes); grey (not only black/white) pixel rows with every centre value against the exact binarisation model; coordinates in tiny and huge units (1e-9 .. 1e6) with relative error bounds; extreme numeric arguments (0, 1e-300, 1e19, MaxFloat64, +Inf); error patterns and data crafted by linear algebra (errors that zero part of the syndromes, data that drives the encoder's division register into special states); every ordered list value of list-valued hints; hint combinations (callback + row-level hints) on upside-down / sideways / mirrored retry paths; reader histories that include hinted reads and every failure exit; ragged and over-long nested slices; call histories through REFUSED requests for every stateless-looking function; hint values of every well-typed kind on ECI-designated as well as undesignated symbols (encodings whose decoder fails, nil, numbers); several writer hints given TOGETHER; the automatic choices of the encoders (mask, version, mode, symbol size) compared with the standard's rule and with what the returned object reports; symbols of more than 103 / 206 characters for modulo-103 checks; canvases of more than 2^31 pixels; arguments whose unused padding bits are dirty, also as seen one operation later; state that flows through the CALLER's own objects (ONE hints map handed to several writers / readers / reads in turn, ONE BinaryBitmap read several times by several readers, ONE multi-format reader shown different symbologies in turn, ONE binariser asked again after a refusal; foreign symbols as steps of such histories); encoder / decoder objects reused over parity counts on both sides of 256 and 512; Code 128 symbols of up to 13600 characters; every mask-evaluation feature compared with the standard at every 5 % boundary of every version; data blocks that are equal or differ only by CRC-32 / Adler-32 / sum / xor / order collisions; every malformed ECI designator prefix; trailer or header fragments of the macro envelope in ordinary text behind runs of every encodation; slanted and 45-degree-rotated grids at every 1/8-pixel translation across every image edge; pixel runs aligned to 32/64-bit storage words; every byte value at every position of fixed-length numeric contents; string arguments holding multi-byte, multi-rune and empty strings; symbols touching two opposite image edges; several symbols on one canvas incl. structured-append parts; every well-typed value of callback hints (typed nil, untyped nil, function literal); operations applied to derived objects after results were cached (BinaryBitmap crops / rotations after GetBlackMatrix, a transform object sampled twice); writer objects first asked for a FOREIGN format; long sequential call histories (N degenerate calls between two requests, N around 2^8 and 2^16) for package-level counters; Reed-Solomon words with up to 2000 errors; every Unicode code point without charset hint in seven contexts; the whole content space of short 1-D contents (every 1-2 character string, every 4-digit string) upside down; containers 2^13 .. 2^21 bits wide with ranges at word and block boundaries; every run length up to the largest Data Matrix symbol followed by shift characters; rows cut exactly at an element boundary for every width residue modulo 64; luminance sources and binarisers whose k-th call FAILS (every k); data blocks that are near twins and are damaged to read like their neighbour; damaged-but-correctable symbols read concurrently. Any breakage that needs two goroutines is ALSO already covered (a schedule explorer and a race-detector pass run every pair of library operations concurrently) and is NOT wanted: the violation must show in a sequential program. Aim for a change all of that could still plausibly MISS while the property is genuinely violated: e.g. a rare combination of THREE conditions, a dependence on a specific numeric value deep inside a table that only one symbol size and one content class reaches, an arithmetic overflow or rounding that needs particular magnitudes, an interaction between two different symbologies or features through legitimately shared read-only state, an error path taken only after a particular earlier failure, or a hint value in an unusual but documented type.
 
 ALREADY DONE for this property by earlier agents (do NOT repeat these or trivial variants of them; use a different mechanism, file or feature):
 {chr(10).join(done) if done else '- (none)'}
